@@ -442,91 +442,91 @@ func runPush(c *core.Ctx, rule string) {
 // pushEdgeCore applies the facts one branch edge of the frame ph describes establishes (parse ok, verifier ok, media
 // type compared, length within the limit).
 func pushEdgeCore(r *Roles, ph *pushHandler, readErr ssa.Value, maxBytes bool, limitPath func(ssa.Value) bool, isLenBytes func(ssa.Value) bool, unmErr map[ssa.Value]string, s pushState, from *ssa.BasicBlock, succ int) pushState {
-		ifi := an.BlockIf(from)
-		if ifi != nil {
-			if x, nilSucc, ok := an.NilTest(ifi); ok && succ == nilSucc {
-				if call, _ := an.CallOf(x); call != nil {
-					if k, ok := unmErr[call]; ok {
-						if k == "img" {
-							s.bits |= bParsedImg
-						} else {
-							s.bits |= bParsedIdx
-						}
-					}
-					if k, ok := ph.verifiers[call]; ok {
-						if k == "img" {
-							s.bits |= bExistImg
-						} else {
-							s.bits |= bExistIdx
-						}
+	ifi := an.BlockIf(from)
+	if ifi != nil {
+		if x, nilSucc, ok := an.NilTest(ifi); ok && succ == nilSucc {
+			if call, _ := an.CallOf(x); call != nil {
+				if k, ok := unmErr[call]; ok {
+					if k == "img" {
+						s.bits |= bParsedImg
+					} else {
+						s.bits |= bParsedIdx
 					}
 				}
-				if maxBytes && x == readErr {
-					s.bits |= bLimit
-				}
-			}
-			// the verifier's list tested for emptiness instead of nil
-			if x, emptySucc, ok := an.LenZeroTest(ifi); ok && succ == emptySucc {
-				if call, _ := an.CallOf(an.Origin(x)); call != nil {
-					if k, ok := ph.verifiers[call]; ok {
-						if k == "img" {
-							s.bits |= bExistImg
-						} else {
-							s.bits |= bExistIdx
-						}
+				if k, ok := ph.verifiers[call]; ok {
+					if k == "img" {
+						s.bits |= bExistImg
+					} else {
+						s.bits |= bExistIdx
 					}
 				}
 			}
-			if x, y, op, ok := an.CmpTest(ifi); ok {
-				// media type comparison
-				for _, pair := range [][2]ssa.Value{{x, y}, {y, x}} {
-					if ph.bodyDerived(r, pair[0], 0) {
-						eqSucc := -1
-						switch op {
-						case token.EQL:
-							eqSucc = 0
-						case token.NEQ:
-							eqSucc = 1
-						}
-						if s2, isStr := an.ConstString(pair[1]); isStr && s2 == "" && eqSucc == succ && ph.detectorDerived(r, pair[0]) {
-							s.bits |= bMTCmp // the detector cannot tell what the body is: nothing to compare
-						}
-						if ph.declaredDerived(r, pair[1], 0) && eqSucc == succ {
-							s.bits |= bMTCmp
-						}
+			if maxBytes && x == readErr {
+				s.bits |= bLimit
+			}
+		}
+		// the verifier's list tested for emptiness instead of nil
+		if x, emptySucc, ok := an.LenZeroTest(ifi); ok && succ == emptySucc {
+			if call, _ := an.CallOf(an.Origin(x)); call != nil {
+				if k, ok := ph.verifiers[call]; ok {
+					if k == "img" {
+						s.bits |= bExistImg
+					} else {
+						s.bits |= bExistIdx
 					}
-				}
-				// length comparison
-				okSucc := -1
-				switch {
-				case isLenBytes(x) && limitPath(y):
-					switch op {
-					case token.GTR, token.GEQ:
-						okSucc = 1
-					case token.LEQ, token.LSS:
-						okSucc = 0
-					}
-				case isLenBytes(y) && limitPath(x):
-					switch op {
-					case token.LSS, token.LEQ:
-						okSucc = 1
-					case token.GEQ, token.GTR:
-						okSucc = 0
-					}
-				}
-				if okSucc == succ {
-					s.bits |= bLimit
 				}
 			}
 		}
-		// the recorded media type takes the detector's result on this edge
-		if phi, ok := ph.mtVal.(*ssa.Phi); ok && phi.Block() == from.Succs[succ] {
-			for i, p := range phi.Block().Preds {
-				if p == from && ph.bodyDerived(r, phi.Edges[i], 0) {
-					s.bits |= bMTCmp
+		if x, y, op, ok := an.CmpTest(ifi); ok {
+			// media type comparison
+			for _, pair := range [][2]ssa.Value{{x, y}, {y, x}} {
+				if ph.bodyDerived(r, pair[0], 0) {
+					eqSucc := -1
+					switch op {
+					case token.EQL:
+						eqSucc = 0
+					case token.NEQ:
+						eqSucc = 1
+					}
+					if s2, isStr := an.ConstString(pair[1]); isStr && s2 == "" && eqSucc == succ && ph.detectorDerived(r, pair[0]) {
+						s.bits |= bMTCmp // the detector cannot tell what the body is: nothing to compare
+					}
+					if ph.declaredDerived(r, pair[1], 0) && eqSucc == succ {
+						s.bits |= bMTCmp
+					}
 				}
 			}
+			// length comparison
+			okSucc := -1
+			switch {
+			case isLenBytes(x) && limitPath(y):
+				switch op {
+				case token.GTR, token.GEQ:
+					okSucc = 1
+				case token.LEQ, token.LSS:
+					okSucc = 0
+				}
+			case isLenBytes(y) && limitPath(x):
+				switch op {
+				case token.LSS, token.LEQ:
+					okSucc = 1
+				case token.GEQ, token.GTR:
+					okSucc = 0
+				}
+			}
+			if okSucc == succ {
+				s.bits |= bLimit
+			}
 		}
+	}
+	// the recorded media type takes the detector's result on this edge
+	if phi, ok := ph.mtVal.(*ssa.Phi); ok && phi.Block() == from.Succs[succ] {
+		for i, p := range phi.Block().Preds {
+			if p == from && ph.bodyDerived(r, phi.Edges[i], 0) {
+				s.bits |= bMTCmp
+			}
+		}
+	}
 	return s
 }
 
